@@ -257,6 +257,10 @@ func (g GV) build() any {
 			return st1{A: g.Elems[0].build().(int), B: g.Elems[1].build().([]int)}
 		case 2:
 			return st2{A: g.Elems[0].build().(int), B: g.Elems[1].build().(string)}
+		case 10:
+			return tagged{Name: "n", Age: 3, skip: 1}
+		case 11:
+			return withChan{A: 1, C: valueChans[0]}
 		default:
 			return st3{F: g.Elems[0].build().(float64)}
 		}
@@ -376,6 +380,10 @@ func encodeGV(x any) GV {
 		return GV{T: "struct", ID: 2, Elems: []GV{encodeGV(t.A), encodeGV(t.B)}}
 	case st3:
 		return GV{T: "struct", ID: 3, Elems: []GV{encodeGV(t.F)}}
+	case tagged:
+		return GV{T: "struct", ID: 10}
+	case withChan:
+		return GV{T: "struct", ID: 11}
 	}
 	rv := reflect.ValueOf(x)
 	switch rv.Kind() {
